@@ -5,12 +5,14 @@
                                                                    |   <id> refused@<i>:<tok> <model node states>
                                                                    |   <id> mismatch@<i>:<tok> model=<term>:<status>:<log>
    tokens (nodes, terms, offsets, value ids are decimals; model term = oxia term + 1; log = t.v,t.v,... or -):
-     NE | NT:n:t | EL:l:n=log|n=log|...:rrs | BL:l | AT:l:f:flog | FB:l | CW:l:v | SA:l:f:o | RA:f:t:o:t.v
+     NE | NT:n:t | EL:l:n=log|n=log|...:rrs | BL:l | AT:l:f:flog[:T|N] | FB:l | CW:l:v | SA:l:f:o | RA:f:t:o:t.v
      RK:l:f:o | AC:l:o | LC:f:l:c | CR:n | SW:from:to | DR
      IS:l:f:k      snapshot install of the first k entries of l's log on f (mapped to SendAppend/RecvAppend/RecvAck/
                    LearnCommit, see below)
      CK:n:term:status:log   checkpoint: the real node n showed this projection here (status N|F|O|L, X = F or O);
                    not a model action
+   AT's optional last field says what the real leader did (T = it sent a Truncate RPC, N = it attached the cursor
+   without one); it is compared with the extracted attach_decide on the model's state before the Attach is replayed.
    The step function is CodeModel.step_code (the protocol as the code runs it); attach_consistent is evaluated
    before every Attach.
      #...          note, ignored *)
@@ -38,7 +40,7 @@ let parse_action tok : M.action list =
       | _ -> failwith ("bad cand " ^ c)) (String.split_on_char '|' cands) in
     [M.Elect (nat_s l, cs, nats rrs)]
   | ["BL"; l] -> [M.BecomeLeader (nat_s l)]
-  | ["AT"; l; f; flog] -> [M.Attach (nat_s l, nat_s f, log_s flog)]
+  | ["AT"; l; f; flog] | ["AT"; l; f; flog; _] -> [M.Attach (nat_s l, nat_s f, log_s flog)]
   | ["FB"; l] -> [M.FinishBecomeLeader (nat_s l)]
   | ["CW"; l; v] -> [M.ClientWrite (nat_s l, nat_s v)]
   | ["SA"; l; f; o] -> [M.SendAppend (nat_s l, nat_s f, nat_s o)]
@@ -105,6 +107,17 @@ let run_trace id ens univ toks =
         let m = Printf.sprintf "%d:%s:%s" (int_of_nat s.M.nterm) ms' (str_log s.M.nlog) in
         if m <> Printf.sprintf "%s:%s:%s" t st lg then
           raise (Stop (Printf.sprintf "mismatch@%d:%s model=%s" i tok m))
+      | ["AT"; l; _; flog; did] ->
+        let s = !w.M.nodes (nat_s l) in
+        let rec firstn n l = match n, l with 0, _ | _, [] -> [] | n, x :: tl -> x :: firstn (n - 1) tl in
+        let eh = int_of_nat s.M.nehead in
+        let lh = (M.last_term (firstn eh s.M.nlog), s.M.nehead) in
+        let d = match M.attach_decide s.M.nlog lh (M.lhead (log_s flog)) with
+          | M.NoTruncate _ -> "N" | M.TruncateTo (_, _) -> "T" | M.AttachError -> "E" in
+        if d <> did then
+          raise (Stop (Printf.sprintf "mismatch@%d:%s model=attach_decide:%s impl=%s (T = Truncate sent, N = attached without Truncate) %s"
+                         i tok d did (dump !w univ)));
+        step_all i tok (parse_action tok)
       | ["IS"; l; f; k] ->
         step_all i tok (expand_snapshot !w (int_of_string l) (int_of_string f) (int_of_string k))
       | _ -> step_all i tok (parse_action tok)) toks;
